@@ -93,15 +93,15 @@ struct Shared {
 fn spawn_worker(workload: &str, tier: &str, seed: u64, errfile: &std::path::Path) -> std::io::Result<Child> {
     let exe = std::env::current_exe()?;
     let err = std::fs::File::create(errfile)?;
-    Command::new(exe)
-        .arg("worker")
+    let mut cmd = Command::new(exe);
+    cmd.arg("worker")
         .arg(workload)
         .arg(tier)
         .arg(seed.to_string())
         .stdin(Stdio::piped())
         .stdout(Stdio::piped())
-        .stderr(err)
-        .spawn()
+        .stderr(err);
+    crate::util::own_group(&mut cmd).spawn()
 }
 
 fn tail(path: &std::path::Path, n: usize) -> String {
@@ -335,7 +335,7 @@ pub fn run_pool(wl: &dyn Workload, workload: &str, tier: &str, seed: u64, scratc
                 if expired {
                     *s.killed_by_watchdog.lock().unwrap() = true;
                     if let Some(c) = s.child.lock().unwrap().as_mut() {
-                        let _ = c.kill();
+                        crate::util::kill_tree(c);
                     }
                     *s.deadline.lock().unwrap() = None;
                 }
@@ -425,7 +425,7 @@ fn run_isolated(
             Isolated::Died(st)
         }
         Err(_) => {
-            let _ = c.kill();
+            crate::util::kill_tree(&mut c);
             let _ = c.wait();
             Isolated::TimedOut
         }
